@@ -84,6 +84,7 @@ type vsimSim struct {
 	noPerm   bool   // select / map orders are the identity (twin runs must not depend on how many draws happened)
 	yieldPPM uint32 // probability (per million) of a voluntary yield at a lock acquisition
 	nDeadlines int
+	timerDue   map[*time.Timer]time.Time // pending expiries of the package's timers (as far as known)
 	holdPPM  uint32 // probability (per million) that a starting timer callback is held back for a few steps
 
 	lastLib    string
@@ -852,4 +853,75 @@ func (s *vsimSim) lastName() string {
 		return s.last.name
 	}
 	return "<network delivery>"
+}
+
+// ---------------------------------------------------------------- timers
+// The package's timer operations go through these wrappers so that the simulator knows when timers are due
+// to expire: the simulated network may delay a packet so that it arrives exactly when a timer of the system
+// fires (a coincidence that seeded latencies alone practically never produce).
+
+func (s *vsimSim) noteTimer(t *time.Timer, d time.Duration) {
+	s.lockMu()
+	if s.timerDue == nil {
+		s.timerDue = map[*time.Timer]time.Time{}
+	}
+	s.timerDue[t] = time.Now().Add(d)
+	s.unlockMu()
+}
+
+func vsimAfterFunc(d time.Duration, f func()) *time.Timer {
+	t := time.AfterFunc(d, f)
+	if s := vsim; s != nil {
+		s.noteTimer(t, d)
+	}
+	return t
+}
+
+func vsimNewTimer(d time.Duration) *time.Timer {
+	t := time.NewTimer(d)
+	if s := vsim; s != nil {
+		s.noteTimer(t, d)
+	}
+	return t
+}
+
+func vsimTimerReset(t *time.Timer, d time.Duration) bool {
+	r := t.Reset(d)
+	if s := vsim; s != nil {
+		s.noteTimer(t, d)
+	}
+	return r
+}
+
+func vsimTimerStop(t *time.Timer) bool {
+	r := t.Stop()
+	if s := vsim; s != nil {
+		s.lockMu()
+		delete(s.timerDue, t)
+		s.unlockMu()
+	}
+	return r
+}
+
+// nextTimerDue returns the earliest recorded timer expiry in (from, to], if any.
+func (s *vsimSim) nextTimerDue(from, to time.Time) (time.Time, bool) {
+	s.lockMu()
+	defer s.unlockMu()
+	var best time.Time
+	ok := false
+	for t, due := range s.timerDue {
+		if !due.After(from) {
+			if due.Before(from.Add(-time.Minute)) {
+				delete(s.timerDue, t) // long expired
+			}
+			continue
+		}
+		if due.After(to) {
+			continue
+		}
+		if !ok || due.Before(best) {
+			best, ok = due, true
+		}
+	}
+	return best, ok
 }
